@@ -150,7 +150,12 @@ def run(ck: Check) -> int:
             seen = set()
             for k in range(n):
                 r = R.random()
-                if r < 0.15:
+                rawp = False
+                if r < 0.08:
+                    import k3_norm
+                    p = k3_norm.random_pattern(R)      # RAWCHARS escapes (octal above \377, \x, \u, \N{…}, incomplete ones)
+                    rawp = True
+                elif r < 0.15:
                     p = gen.random_bracket(R) + (gen.random_bracket(R) if R.random() < 0.3 else '')
                 elif r < 0.5:
                     p = gen.random_pattern(R, 8)
@@ -166,6 +171,10 @@ def run(ck: Check) -> int:
                 ffl = gen.random_flags(R, fn_bits, 0.3)
                 gfl = gen.random_flags(R, gl_bits, 0.3)
                 wfl = gen.random_flags(R, wm_bits, 0.3)
+                if rawp:
+                    ffl |= F.RAWCHARS
+                    gfl |= G.RAWCHARS
+                    wfl |= WM.RAWCHARS
                 calls.append(('fnmatch.translate', ffl, lambda: [re.compile(x) for t in F.translate(pp, flags=ffl) for x in t]))
                 calls.append(('fnmatch.fnmatch', ffl, lambda: [F.fnmatch(conv(nm), pp, flags=ffl) for nm in names]))
                 calls.append(('fnmatch.filter', ffl, lambda: F.filter([conv(nm) for nm in names], pp, flags=ffl)))
@@ -202,7 +211,19 @@ def run(ck: Check) -> int:
                         sr.histogram['scan-budget'] = sr.histogram.get('scan-budget', 0) + 1
                     except allowed as e:
                         kname = type(e).__name__
-                        sr.histogram[kname] = sr.histogram.get(kname, 0) + 1
+                        # ValueError is documented for absolute pathlib patterns / REALPATH on a foreign pure path only (and
+                        # TypeError for mixed str/bytes, which this search never produces): from any other entry point it is an
+                        # undocumented error (seeded change C10c: bytes([value]) for an octal escape above \377)
+                        if isinstance(e, (ValueError, TypeError)) and not isinstance(e, W.PatternLimitException) and not api.startswith('pathlib') \
+                                and not (isinstance(e, ValueError) and 'null byte' in str(e)) and not isinstance(e, UnicodeError):
+                            # (embedded NUL / undecodable bytes reach os.path.expanduser or the OS under GLOBTILDE / REALPATH: stdlib and
+                            #  file-system encoding behaviour, parameters of the model — DESIGN §7)
+                            ck.report(Failing(f'{api} raised {kname}: {e} (documented only for pathlib absolute patterns / mixed types)',
+                                              {'api': api, 'pattern': p, 'bytes': isb, 'flags': fl},
+                                              'success or a documented error', kname), _attribute(e, p, ''))
+                            sr.histogram['undocumented:' + kname] = sr.histogram.get('undocumented:' + kname, 0) + 1
+                        else:
+                            sr.histogram[kname] = sr.histogram.get(kname, 0) + 1
                     except RecursionError:
                         sr.histogram['RecursionError(bounded nesting exceeded)'] = 1
                     except Exception as e:  # noqa: BLE001
